@@ -132,6 +132,36 @@ def gen(rng, tier):
         yield {"k": "unpack", "ty": ty, "old": old, "from": M([("l", setting), ("z", U(1))]), "copts": [], "uopts": [], "strictErr": False,
                "_tag": "unpack/null-elements/" + ck, "_nt": True,
                "_sig": "nullel|%s|%s|%s|%s|%s" % (ck, ek, S_["f"][0]["v"], S_["f"][0]["ty"]["t"], "old" if old else "zero")}
+    # two validator namespaces on one struct type (ValidatorTag option), one call after the other in one process: the validators
+    # a call applies are the ones of the tag it asked for
+    vrng = rng.fork("validator-tags")
+    for _ in range(n // 8):
+        fs, kv = [], []
+        for i in range(1 + vrng.below(3)):
+            kind = vrng.pick(["int", "float64", "uint16", "string"])
+            pool = ["required", "nonzero"] if kind == "string" else ["min=1", "max=5", "positive", "nonzero", "min=3", "max=0"]
+            f = {"n": "F%d" % i, "tag": "f%d" % i, "v": vrng.pick(pool + [""]), "ty": TG.T(kind), "valt": vrng.pick(pool + [""])}
+            fs.append(f)
+            r = vrng.below(4)
+            if r == 0:
+                continue
+            which = f["v"] if r == 1 else f["valt"]
+            if r == 3 or not which:
+                val = TG.good_scalar(vrng, kind, "")[1]
+            else:
+                class R:
+                    def pick(self, xs): return vrng.pick(xs)
+                    def chance(self, p): return vrng.chance(p)
+                val = TG.violating(R(), kind, which) or TG.good_scalar(vrng, kind, "")[1]
+            kv.append((f["tag"], val))
+        ty = TG.T("struct", f=fs)
+        alt = [opt("ValidatorTag", "valt")]
+        first_default = vrng.chance(0.5)
+        c = {"k": "unpack", "ty": ty, "old": None, "from": M(kv), "copts": [], "strictErr": False,
+             "uopts": alt if first_default else [], "warmOpts": [] if first_default else alt,
+             "_tag": "unpack/validator-tags/" + ("default-then-alt" if first_default else "alt-then-default"), "_nt": True,
+             "_sig": "vtags|%s|%s|%s" % (first_default, ",".join(f["v"] + "/" + f["valt"] for f in fs), ",".join(k for k, _ in kv))}
+        yield c
     # named types with Validate / InitDefaults methods next to their method-less twins
     crng = rng.fork("catalog")
     for _ in range(n // 4):
